@@ -56,12 +56,18 @@ pub fn gen_plan(rng: &mut Rng, focus: &str, tier: &str, case_idx: u64) -> Plan {
     let huge_stack = focus == "c06" && case_idx == 3;   // another: one thread with 20 MiB of live stack above its stack pointer
     let many = boundary || late_fixed || (focus == "c06" && rng.chance(1, 2));
     let interrupted = focus == "c04" && case_idx == 1;   // one fixed C04 shape per run: many threads, the dumping thread is interrupted all along
-    let nthreads = if force_k1 || stack_only || huge_stack { 3 } else if interrupted { 24 } else if late_fixed { 26 } else if boundary { 27 } else if many { rng.range(19, if tier == "thorough" { 63 } else { 26 }) } else { match rng.below(4) { 0 => 0, 1 => 1, _ => rng.range(2, 6) } } as usize;
+    // another fixed C04 shape: busy threads that keep storing their counters into memory the caller registered as an application
+    // region, and no group stop (the StopProcess fail point): the region must be captured as it was while the threads were held
+    let busy_app = focus == "c04" && case_idx == 3;
+    // a fixed C20 shape: the size limit is exceeded, the crash thread sits at list position >= 20, and its only reference to the
+    // principal mapping lies 3000 bytes above its stack pointer (beyond the 2 KiB window that other late threads are cut to)
+    let late_ref = focus == "c20" && case_idx == 6;
+    let nthreads = if late_ref { 26 } else if busy_app { 4 } else if force_k1 || stack_only || huge_stack { 3 } else if interrupted { 24 } else if late_fixed { 26 } else if boundary { 27 } else if many { rng.range(19, if tier == "thorough" { 63 } else { 26 }) } else { match rng.below(4) { 0 => 0, 1 => 1, _ => rng.range(2, 6) } } as usize;
     let offs = [0u32, 8, 2040, 2047, 2048, 2056, 4088, 4095, 0xea0, 0x10];
     let threads: Vec<ThreadSpec> = (0..nthreads).map(|i| ThreadSpec {
-        kind: if force_k1 && i == 1 { Kind::NullSp } else if boundary || stack_only || interrupted || huge_stack { Kind::Block } else if focus == "c04" && rng.chance(1, 5) { Kind::Spin } else if rng.chance(1, 12) { Kind::NullSp } else { Kind::Block },
-        sp_off: if stack_only { 0x800 } else if boundary && i >= 19 { [0u32, 8, 2040, 2048, 2056, 4088, 4095, 2047][i - 19] } else if rng.chance(3, 4) { *rng.pick(&offs) } else { rng.below(4096) as u32 },
-        pages: if huge_stack && i == 0 { (5000 << 16) | 3 } else if deep_ref && i == 0 { (10 << 16) | 3 } else if rng.chance(1, 6) { rng.range(3, 33) as u32 } else { rng.range(2, 4) as u32 },
+        kind: if late_ref { Kind::Block } else if busy_app { if i < 3 { Kind::Spin } else { Kind::Block } } else if force_k1 && i == 1 { Kind::NullSp } else if boundary || stack_only || interrupted || huge_stack { Kind::Block } else if focus == "c04" && rng.chance(1, 5) { Kind::Spin } else if rng.chance(1, 12) { Kind::NullSp } else { Kind::Block },
+        sp_off: if late_ref { 0x100 } else if stack_only { 0x800 } else if boundary && i >= 19 { [0u32, 8, 2040, 2048, 2056, 4088, 4095, 2047][i - 19] } else if rng.chance(3, 4) { *rng.pick(&offs) } else { rng.below(4096) as u32 },
+        pages: if late_ref { 3 } else if focus == "c07" && i % 3 == 0 && !boundary { 1 } else if huge_stack && i == 0 { (5000 << 16) | 3 } else if deep_ref && i == 0 { (10 << 16) | 3 } else if rng.chance(1, 6) { rng.range(3, 33) as u32 } else { rng.range(2, 4) as u32 },
         // (C04: a name that is not valid UTF-8, or empty, does not make its thread any less of a thread)
         name: if focus == "c04" && i % 3 == 1 { Some(if i % 2 == 1 { vec![b'w', 0xff, 0xfe, b'k'] } else { vec![] }) } else { Some(format!("t{i}").into_bytes()) },
         // a stack pointer whose low 32 bits are all zero or all one (multiples of 4 GiB): still an ordinary thread
@@ -92,7 +98,10 @@ pub fn gen_plan(rng: &mut Rng, focus: &str, tier: &str, case_idx: u64) -> Plan {
             lines.push(format!("appmem 3 {off} {len}")); napp += 1;
         }
     }
+    if busy_app { lines.push("appmemsh 1024 512".into()); napp += 1; }
     let blame_late = late_fixed || (focus == "c06" && many && !boundary && rng.chance(1, 2));
+    if late_ref { lines.push("poke 22 3000 1 128".into());
+        return Plan { scen: Scenario { threads, lines }, blame_late: true, crash: 2, limit: Some(1), sanitize: false, user_maps: vec![], skip: 4, napp, blame_idx: Some(22), crash_ip: None, retarget_principal: None, direct_chain: false, exit_between: None }; }
     if lost_crash_stack { return Plan { scen: Scenario { threads, lines }, blame_late: false, crash: 1, limit: None, sanitize: false, user_maps: vec![], skip: 6, napp, blame_idx: None, crash_ip: None, retarget_principal: None, direct_chain: false, exit_between: None }; }
     if stack_only { return Plan { scen: Scenario { threads, lines }, blame_late: false, crash: 0, limit: None, sanitize: !low_principal, user_maps: vec![], skip: if low_principal { 5 } else { 4 }, napp, blame_idx: None, crash_ip: None, retarget_principal: None, direct_chain: false, exit_between: None }; }
     Plan { scen: Scenario { threads, lines }, blame_late, crash: if blame_late { 2 } else if force_k1 { 3 } else if focus == "c05" || focus == "c07" { rng.below(4) as u8 } else if rng.chance(1, 3) { rng.range(1, 2) as u8 } else { 0 },
@@ -118,7 +127,8 @@ pub fn configure(rng: &mut Rng, plan: &Plan, target: &Target) -> Configured {
         let mut cc = gen_crash_context(rng, blamed);
         let bidx = target.tids.iter().position(|t| *t == blamed);
         let sp = match if plan.blame_late { 4 } else { rng.below(5) } { 0 => rng.next(), 1 => 0, 2 => u64::MAX - 7, _ => match bidx { Some(i) => target.fact_hex(&format!("t{i}.sp")), None => anon[1] + 0x800 } };
-        let ip = match rng.below(8) { 0 => rng.next() >> 17, 1 => anon[0], 2 => anon[0] + 1, 3 => anon[0] + 3 * 4096 - 1, 4 => anon[0] + *rng.pick(&[127u64, 128, 129, 3 * 4096 - 128, 3 * 4096 - 129, 3 * 4096 - 127]), 5 => anon[2] + 0x10, 6 => anon[0] + 3 * 4096, _ => target.fact_hex("blk") };
+        let ip = match rng.below(9) { 8 => sp.wrapping_add(0x400),   // the instruction pointer lies in the crash thread's own stack (a smashed return address)
+                                      0 => rng.next() >> 17, 1 => anon[0], 2 => anon[0] + 1, 3 => anon[0] + 3 * 4096 - 1, 4 => anon[0] + *rng.pick(&[127u64, 128, 129, 3 * 4096 - 128, 3 * 4096 - 129, 3 * 4096 - 127]), 5 => anon[2] + 0x10, 6 => anon[0] + 3 * 4096, _ => target.fact_hex("blk") };
         // the context's own thread-id field is not what decides who is blamed (the id given to the writer is):
         // unset, another live thread, or arbitrary in half of the cases
         match rng.below(6) { 0 => cc.inner.tid = 0, 1 if nth > 0 => cc.inner.tid = target.tids[rng.below(nth as u64) as usize], 2 => cc.inner.tid = (rng.next() >> 40) as i32, _ => {} }
@@ -138,6 +148,7 @@ pub fn configure(rng: &mut Rng, plan: &Plan, target: &Target) -> Configured {
         writer.skip_stacks_if_mapping_unreferenced();
         if plan.skip == 1 { principal = Some(match rng.below(3) { 0 => anon[0] + 0x100, 1 => anon[1] + 0x80, _ => target.fact_hex("blk") }); }
         if plan.skip == 2 { principal = Some(0x10); }
+        if plan.skip == 8 { principal = Some(anon[0] + 0x1100); }   // inside the first anonymous mapping, in its second page
         if plan.skip == 4 { principal = Some(anon[1] + 0x80); }
         if plan.skip == 5 { principal = Some(0x2000_0080); }
         if plan.skip == 6 { principal = Some(anon[0] + 0x100); }
@@ -231,13 +242,20 @@ pub fn run_reuse(a: &Args) {
         let supplied = case_idx == 3; let retarget = case_idx == 4;
         if supplied { plan.scen.lines.push("chain 3 0".into()); plan.direct_chain = true; }
         if retarget { plan.skip = 7; plan.crash = 0; plan.blame_late = false; plan.limit = None; }
-        let exiter = if !grow && !held && !supplied && !retarget && case_idx != 1 && rng.chance(1, 2) { plan.scen.threads.push(ThreadSpec { kind: Kind::Exiter, sp_off: 0, pages: 2, name: Some(b"exiter".to_vec()), at: None }); Some(plan.scen.threads.len() - 1) } else { None };
+        // one more fixed history: between two requests the TARGET's layout changes - the first page of the principal mapping gets
+        // another protection, so that the configured address (in the second page) now lies in a different mapping than before
+        let split = case_idx == 5;
+        if split { plan.skip = 8; plan.crash = 0; plan.blame_late = false; plan.limit = None; plan.sanitize = false;
+                   plan.scen.threads.truncate(4); while plan.scen.threads.len() < 3 { plan.scen.threads.push(ThreadSpec { kind: Kind::Block, sp_off: 0x800, pages: 2, name: None, at: None }); }
+                   for t in plan.scen.threads.iter_mut() { t.kind = Kind::Block; t.at = None; t.sp_off = 0x800; }
+                   plan.scen.lines.retain(|l| !l.starts_with("poke")); plan.scen.lines.push(format!("poke 0 64 0 {}", 0x1800)); plan.scen.lines.push(format!("poke 2 128 0 {}", 0x2000 + 8)); }
+        let exiter = if !split && !grow && !held && !supplied && !retarget && case_idx != 1 && rng.chance(1, 2) { plan.scen.threads.push(ThreadSpec { kind: Kind::Exiter, sp_off: 0, pages: 2, name: Some(b"exiter".to_vec()), at: None }); Some(plan.scen.threads.len() - 1) } else { None };
         let mut target = match Target::spawn(&plan.scen, &work) { Ok(t) => t, Err(e) => { out.notes.push(format!("case skipped: {e}")); continue; } };
         let cfg_seed = rng.next();
         let mut cfg = configure(&mut Rng(cfg_seed), &plan, &target);
         // another fixed history: between two requests the target replaces its program image (same pid, new auxiliary vector)
         let reexec = case_idx == 1;
-        let ndumps = if grow || reexec || held || supplied || retarget { 2 } else { rng.range(2, if a.tier == "thorough" { 5 } else { 3 }) };
+        let ndumps = if grow || reexec || held || supplied || retarget || split { 2 } else { rng.range(2, if a.tier == "thorough" { 5 } else { 3 }) };
         out.count(&format!("dumps.{ndumps}"));
         for k in 0..ndumps {
             if k == 1 && grow {
@@ -261,8 +279,9 @@ pub fn run_reuse(a: &Args) {
             if held && k == 0 { unsafe { let t = target.tids[0]; libc::ptrace(libc::PTRACE_SEIZE, t, 0, 0); libc::ptrace(libc::PTRACE_INTERRUPT, t, 0, 0); let mut st = 0; libc::waitpid(t, &mut st, libc::__WALL); } out.count("history.blamed_thread_held_during_first_request"); }
             if held && k == 1 { unsafe { libc::ptrace(libc::PTRACE_DETACH, target.tids[0], 0, 0); } target.settle(); }
             // between the two requests the caller points the principal mapping at an address that lies in no mapping
+            if split && k == 1 { let r = target.cmd("m 0 0 1 r--"); target.settle(); out.count(if r.trim() == "MPROTECT 0" { "history.principal_mapping_split_between_requests" } else { "history.split_failed" }); }
             if retarget && k == 1 { cfg.writer.set_principal_mapping_address(0x10); cfg.principal = Some(0x10); out.count("history.principal_address_changed_between_requests"); }
-            if !grow && !reexec && !held && !supplied && !retarget && k + 1 < ndumps && rng.chance(1, 3) {
+            if !split && !grow && !reexec && !held && !supplied && !retarget && k + 1 < ndumps && rng.chance(1, 3) {
                 let fail_at = rng.range(4, 12) as usize;
                 match dump_once_failing(&mut cfg, target.pid, Some(fail_at)) { Ok((Err(_), _, _)) => { out.count("history.failed_request"); } Ok((Ok(_), _, _)) => { out.count("history.failure_not_reached"); } Err(_) => {} }
                 continue;
@@ -398,7 +417,7 @@ pub fn emit(out: &mut Out, lv: &Live, aspects: &[String]) {
             // to the end of the containing mapping line
             let page = sp & !0xfff;
             let line_end = w.lines().iter().find(|m| page >= m.start && page < m.end).map(|m| m.end);
-            if let (Some(end), true) = (line_end, lv.plan.limit.is_none()) {
+            if let (Some(end), true) = (line_end, lv.plan.limit.is_none() || is_crash || idx < 20) {
                 if let Some(stack) = w.mem(page, (end - page) as usize) {
                     let mut l = Line::new("c20_included"); l.b(pr.is_some());
                     let (lo, hi) = pr.map(|(_, _, ss, se, _)| (ss, se)).unwrap_or((0, 0));
@@ -503,8 +522,10 @@ pub fn run(a: &Args) {
         // one fixed C04 run: no group stop before the attach (StopProcess fail point), so that the writer really waits for each
         // thread, and a signal interrupts the dumping thread every 40 microseconds
         let interrupted = focus == "c04" && case_idx == 1;
-        let mut client = if interrupted { Some(minidump_writer::FailSpotName::testing_client()) } else { None };
-        if let Some(c) = client.as_mut() { c.set_enabled(minidump_writer::FailSpotName::StopProcess, true); INTERRUPT_DUMPER.store(true, std::sync::atomic::Ordering::SeqCst); out.count("run.dumping_thread_interrupted_all_along"); }
+        let busy_app = focus == "c04" && case_idx == 3;
+        if busy_app { plan.crash = 0; plan.skip = 0; plan.sanitize = false; plan.limit = None; out.count("run.busy_threads_write_into_an_application_region_without_group_stop"); }
+        let mut client = if interrupted || busy_app { Some(minidump_writer::FailSpotName::testing_client()) } else { None };
+        if let Some(c) = client.as_mut() { c.set_enabled(minidump_writer::FailSpotName::StopProcess, true); if interrupted { INTERRUPT_DUMPER.store(true, std::sync::atomic::Ordering::SeqCst); out.count("run.dumping_thread_interrupted_all_along"); } }
         // one fixed C20 history: the writer has served a request with a principal address inside a mapping; the caller then names an
         // address that lies in no mapping - every stack is now unreferenced
         if focus == "c20" && case_idx == 5 { plan.skip = 7; plan.crash = 0; plan.limit = None; plan.blame_late = false; plan.retarget_principal = Some(0x10); out.count("history.principal_retargeted_after_a_request"); }
